@@ -69,6 +69,8 @@ def stepSt (s : St) (ws : List String) : St × String :=
     | "rs3", some [dx, dy, dz, i], _ => (s, showV3 (reshape3 ⟨dx, dy, dz⟩ i))
     | "it2", some [dx, dy], _ => (s, showList ((iterate2 ⟨dx, dy⟩).map showV2))
     | "it3", some [dx, dy, dz], _ => (s, showList ((iterate3 ⟨dx, dy, dz⟩).map showV3))
+    | "itb2", some [dx, dy], _ => (s, showList ((backward2 ⟨dx, dy⟩).map showV2))
+    | "itb3", some [dx, dy, dz], _ => (s, showList ((backward3 ⟨dx, dy, dz⟩).map showV3))
     | "itp2", some [dx, dy, st], _ =>
       let d : V2 U64 := ⟨dx, dy⟩
       let it : Iter (V2 U64) := ⟨d, st⟩
